@@ -337,7 +337,7 @@ pub fn l32_file_stage(ctx: &Ctx, build_dir: &Path) -> (u64, Option<Value>, Optio
     if std::env::var("MLV_SKIP_L32").is_ok() {
         return (0, Some(json!({"skipped": "MLV_SKIP_L32 set"})), None);
     }
-    let count: u64 = if ctx.tier.name() == "quick" { 24 } else { std::env::var("VERIF_L32_CASES").ok().and_then(|s| s.parse().ok()).unwrap_or(1500) };
+    let count: u64 = if ctx.tier.name() == "quick" { 48 } else { std::env::var("VERIF_L32_CASES").ok().and_then(|s| s.parse().ok()).unwrap_or(1200) };
     let file = build_dir.join(format!("l32-{}-{}.txt", ctx.id, ctx.seed));
     let me = std::env::current_exe().expect("current_exe");
     let st = Command::new(&me).args(["l32-inputs", &ctx.seed.to_string(), &count.to_string(), which, file.to_str().unwrap()]).status();
@@ -346,48 +346,83 @@ pub fn l32_file_stage(ctx: &Ctx, build_dir: &Path) -> (u64, Option<Value>, Optio
     }
     let harness = ctx.verif_dir.join("harness");
     let start = Instant::now();
-    let out = Command::new("cargo")
-        .current_dir(&harness)
-        .args(["+nightly", "miri", "run", "-q", "--target", "i686-unknown-linux-gnu", "-p", "mlv", "--bin", "mlv-miri", "--", "L32F", file.to_str().unwrap()])
-        .env("MIRIFLAGS", "-Zmiri-tree-borrows -Zmiri-disable-isolation -Zmiri-no-extra-rounding-error")
-        .env("CARGO_TARGET_DIR", build_dir.join("miri"))
-        .env("CARGO_NET_OFFLINE", "true")
-        .stdin(Stdio::null())
-        .output();
-    let out = match out {
-        Ok(o) => o,
-        Err(e) => return (0, None, Some(format!("cannot run Miri (i686): {e}"))),
-    };
-    let stdout = String::from_utf8_lossy(&out.stdout).to_string();
-    let stderr = String::from_utf8_lossy(&out.stderr).to_string();
-    let cases = stdout.lines().filter(|l| l.starts_with("MIRI-CASE")).count();
+    // the interpreter is single-threaded: split the inputs over up to 12 concurrent Miri processes
+    let lines: Vec<String> = std::fs::read_to_string(&file).unwrap_or_default().lines().map(|s| s.to_string()).collect();
+    let parts = ((lines.len() + 5) / 6).clamp(1, 12);
+    let mut children = Vec::new();
+    for p in 0..parts {
+        let chunk: Vec<&String> = lines.iter().enumerate().filter(|(i, _)| i % parts == p).map(|(_, l)| l).collect();
+        let cfile = build_dir.join(format!("l32-{}-{}-part{}.txt", ctx.id, ctx.seed, p));
+        let text: String = chunk.iter().map(|l| format!("{l}\n")).collect();
+        if std::fs::write(&cfile, text).is_err() {
+            return (0, None, Some("cannot write a 32-bit-limb stage input chunk".into()));
+        }
+        let child = Command::new("cargo")
+            .current_dir(&harness)
+            .args(["+nightly", "miri", "run", "-q", "--target", "i686-unknown-linux-gnu", "-p", "mlv", "--bin", "mlv-miri", "--", "L32F", cfile.to_str().unwrap()])
+            .env("MIRIFLAGS", "-Zmiri-tree-borrows -Zmiri-disable-isolation -Zmiri-no-extra-rounding-error")
+            .env("CARGO_TARGET_DIR", build_dir.join("miri"))
+            .env("CARGO_NET_OFFLINE", "true")
+            .stdin(Stdio::null())
+            .stdout(Stdio::piped())
+            .stderr(Stdio::piped())
+            .spawn();
+        match child {
+            Ok(c) => children.push((cfile, c)),
+            Err(e) => return (0, None, Some(format!("cannot run Miri (i686): {e}"))),
+        }
+    }
+    let mut cases = 0usize;
+    let mut all_ok = true;
+    let mut samples: Vec<String> = Vec::new();
+    let mut failure: Option<(PathBuf, String, String)> = None; // chunk file, stdout, stderr
+    let mut last_err = String::new();
+    for (cfile, child) in children {
+        let out = match child.wait_with_output() {
+            Ok(o) => o,
+            Err(e) => return (0, None, Some(format!("cannot run Miri (i686): {e}"))),
+        };
+        let stdout = String::from_utf8_lossy(&out.stdout).to_string();
+        let stderr = String::from_utf8_lossy(&out.stderr).to_string();
+        cases += stdout.lines().filter(|l| l.starts_with("MIRI-CASE")).count();
+        samples.extend(stdout.lines().filter(|l| l.starts_with("MIRI-CASE")).take(1).map(|s| s.to_string()));
+        let ok = out.status.success() && stdout.contains("MIRI-OK L32F") && stdout.contains("pointer width = 32");
+        if !ok {
+            all_ok = false;
+            last_err = stderr.lines().last().unwrap_or("").to_string();
+            if failure.is_none() && (stdout.lines().any(|l| l.starts_with("MIRI-VIOLATION")) || stderr.contains("Undefined Behavior")) {
+                failure = Some((cfile.clone(), stdout, stderr));
+            }
+        }
+        if ok {
+            let _ = std::fs::remove_file(&cfile);
+        }
+    }
+    samples.truncate(6);
     let report = json!({"engine": "Miri, --target i686-unknown-linux-gnu (32-bit limbs), tree borrows; inputs and expected bits generated natively",
-                        "inputs": count, "inputs_parsed": cases, "configurations": ["default", "compact", "alloc", "no_std+compact"], "wall_s": start.elapsed().as_secs_f64(),
-                        "ok": out.status.success(), "samples": stdout.lines().filter(|l| l.starts_with("MIRI-CASE")).take(6).collect::<Vec<_>>() });
-    if out.status.success() && stdout.contains("MIRI-OK L32F") && stdout.contains("pointer width = 32") {
+                        "inputs": count, "inputs_parsed": cases, "concurrent_interpreters": parts, "configurations": ["default", "compact", "alloc", "no_std+compact"],
+                        "wall_s": start.elapsed().as_secs_f64(), "ok": all_ok, "samples": samples});
+    if all_ok {
         return (0, Some(report), None);
     }
-    let save = |message: String| {
-        let lines: Vec<String> = std::fs::read_to_string(&file).unwrap_or_default().lines().map(|s| s.to_string()).collect();
+    if let Some((cfile, stdout, stderr)) = failure {
+        let clines: Vec<String> = std::fs::read_to_string(&cfile).unwrap_or_default().lines().map(|s| s.to_string()).collect();
         let last = stdout.lines().filter(|l| l.starts_with("MIRI-CASE L32F")).last().and_then(|l| l.split_whitespace().nth(2)).and_then(|s| s.parse::<usize>().ok());
-        let line = last.and_then(|i| lines.get(i).cloned()).unwrap_or_default();
-        let path = ctx.verif_dir.join("replays").join(format!("{}-l32f-{}-{}.json", ctx.id, ctx.seed, last.unwrap_or(0)));
+        let line = last.and_then(|i| clines.get(i).cloned()).unwrap_or_default();
+        let message = match stdout.lines().find(|l| l.starts_with("MIRI-VIOLATION")) {
+            Some(v) => v.to_string(),
+            None => format!("Miri (i686) reported undefined behaviour: {}", stderr.lines().filter(|l| l.contains("Undefined Behavior") || l.contains("-->")).take(6).collect::<Vec<_>>().join(" | ")),
+        };
+        eprintln!("32-bit-limb stage: {message}");
+        let tag = crate::gen::mix(line.bytes().fold(0u64, |h, b| h.wrapping_mul(131).wrapping_add(b as u64)));
+        let path = ctx.verif_dir.join("replays").join(format!("{}-l32f-{:016x}.json", ctx.id, tag));
         std::fs::create_dir_all(ctx.verif_dir.join("replays")).ok();
         let doc = json!({"property": ctx.id, "message": message, "case": {"kind": "l32f", "line": line}});
         let _ = std::fs::write(&path, serde_json::to_string_pretty(&doc).unwrap());
         println!("VIOLATION property={} replay={}", ctx.id, path.display());
-    };
-    if let Some(v) = stdout.lines().find(|l| l.starts_with("MIRI-VIOLATION")) {
-        eprintln!("32-bit-limb stage: {v}");
-        save(v.to_string());
         return (1, Some(report), None);
     }
-    if stderr.contains("Undefined Behavior") {
-        let detail: String = stderr.lines().filter(|l| l.contains("Undefined Behavior") || l.contains("-->")).take(6).collect::<Vec<_>>().join(" | ");
-        save(format!("Miri (i686) reported undefined behaviour: {detail}"));
-        return (1, Some(report), None);
-    }
-    (0, Some(report), Some(format!("32-bit-limb Miri stage was inconclusive: {}", stderr.lines().last().unwrap_or(""))))
+    (0, Some(report), Some(format!("32-bit-limb Miri stage was inconclusive: {last_err}")))
 }
 
 /// For properties that are not process-supervised: run the registered fuzz
